@@ -108,7 +108,8 @@ CHECKS = {
               "copy discipline that shares nothing, for every pure parser, capacity and finite history every parse returns the pure parse (invariant proof); "
               "C11_share_counterexample: lark's Tree.copy() breaks it in three operations. The discipline of the code is OBSERVED on every run (alias analysis of "
               "returned trees against the lru_cache entry) and the theorem is instantiated with it (C11_code_copies_deeply). Histories (both parsers, hits, misses, "
-              "evictions beyond 1024 in the thorough tier, edits at any depth) run on the implementation, are compared with an uncached parse and replayed by the model."),
+              "evictions beyond 1024 in the thorough tier, edits at any depth; a third of the strings have a near twin in the same history: equal up to blanks / case / "
+              "stripping, some malformed) run on the implementation, are compared with an uncached parse and replayed by the model."),
         design_ref="§5 C11",
         note=NOTE_COMMON + "Modelled rather than verified: functools.lru_cache, copy.deepcopy (observed through alias analysis + histories). Thread races are outside (histories, not schedules).",
         technique="Lean 4 proof (heap invariant over arbitrary histories) instantiated with an observed copy discipline + history replay",
@@ -119,7 +120,8 @@ CHECKS = {
               "slot filling, the index bookkeeping of gather_if_necessary, dict(zip(keys, results)) also with repeated keys, the placeholder pass of package "
               "expansion (every occurrence gets the expression resolved for it), and the task/context machine (values read from context-local storage are schedule "
               "free). On the implementation every generated expression is evaluated under random delay schedules and under ALL completion permutations for <= 4 "
-              "awaitables of a kind and compared with the run in which nothing yields."),
+              "awaitables of a kind and compared with the run in which nothing yields; for the validity check the content evaluation results handed to the evaluations are "
+              "logged: each concurrent evaluation sees the result the setter was called with for it, the caller's context-local data stay untouched."),
         design_ref="§5 C12",
         note=NOTE_COMMON + "Runtime facts named, not proved: gather returns results in argument order; every gathered coroutine is its own task with a copy of the caller's context; inject resolves providers when the coroutine runs.",
         technique="Lean 4 proof over all completion orders of the modelled bookkeeping + schedule exploration on the implementation",
@@ -207,7 +209,10 @@ CHECKS = {
               "931 = zero offset, and the hour-grid lemma that makes the exhaustive sweep over all 368184 whole hours (thorough tier) meet every fulfilled instant. "
               "String level (Model/Iso.lean, C20Iso.lean): parse_as_datetime is modelled on the extended ISO-8601 family YYYY-MM-DD<sep>HH:MM:SS(Z|+-HH:MM|+-HH:MM:SS); "
               "every valid datetime in every such writing is read back as itself (C20_iso_roundtrip), what is read is in range (C20_iso_sound), two writings of one instant "
-              "get one verdict (C20_iso_notation, C20_iso_every_writing), out-of-range fields give unfulfilled + message (C20_iso_invalid). The `iso` correspondence sends only the "
+              "get one verdict (C20_iso_notation, C20_iso_every_writing), out-of-range fields give unfulfilled + message (C20_iso_invalid). C20Write.lean states the property with its own "
+              "quantifiers: for every second of 1996-2037, every offset inside +-24 h, every separator and offset style the written string gets the verdict of the instant "
+              "(C20_every_instant_every_offset, C20_offset_irrelevant; calendar inverse checked on all 15343 days of the range by decide +kernel); the `write` correspondence "
+              "compares the model's writing of (instant, offset) with datetime.isoformat. The `iso` correspondence sends only the "
               "string to the model and compares parsed fields and all five verdicts. The implementation is compared with independent integer arithmetic of the EU "
               "rule over every switch day of all 42 years, random seconds, 11 offsets incl. fractional ones and 7 notations plus the family's 16 separators / 4 offset styles, plus the non-datetime stream."),
         design_ref="§5 C20, §13",
